@@ -6,6 +6,7 @@ import (
 	"fmt"
 	"os"
 	"path/filepath"
+	"sort"
 	"strings"
 	"sync"
 	"time"
@@ -28,11 +29,13 @@ type RunOut struct {
 	Events    []map[string]interface{}
 	Lines     [][]byte // RunStart + events + RunEnd, as NDJSON lines
 	Dir       string
+	Prefixes  map[string]string // plugin -> prefix as registered in this run (from PkgStart)
 	UserAfter map[string]string // contents of changed user files after the run
 }
 
 type RunOpts struct {
 	Post     bool // type-check observations after successful runs
+	FileObs  bool // token-level observation of every user file of the package (C10)
 	KeepDirs bool
 	Timeout  time.Duration
 	Workers  int
@@ -152,6 +155,7 @@ func RunOne(c *core.Ctx, bin string, sc *Scenario, root string, chk *Checker, o 
 		out.Derived, out.HasDer = string(data), true
 	}
 	prefixes := defaultPrefixes(r.Events)
+	out.Prefixes = prefixes
 	if o.Post && r.Exit == 0 && chk != nil {
 		out.Post = chk.Check(pkgdir, prefixes)
 	} else {
@@ -168,6 +172,32 @@ func RunOne(c *core.Ctx, bin string, sc *Scenario, root string, chk *Checker, o 
 	}))
 	for _, e := range r.Events {
 		out.Lines = append(out.Lines, marshal(e))
+	}
+	if o.FileObs {
+		passes := 0
+		for _, e := range r.Events {
+			if e["ev"] == "PkgStart" {
+				passes++
+			}
+		}
+		var rels []string
+		for rel := range sc.Files {
+			if isUserGo(rel) && filepath.Dir(rel) == filepath.Clean(sc.PkgDir) {
+				rels = append(rels, rel)
+			}
+		}
+		sort.Strings(rels)
+		for _, rel := range rels {
+			abs := filepath.Join(root, rel)
+			now, err := os.ReadFile(abs)
+			var rens []map[string]interface{}
+			for _, e := range r.Events {
+				if e["ev"] == "Rename" && e["file"] == abs {
+					rens = append(rens, e)
+				}
+			}
+			out.Lines = append(out.Lines, marshal(fileObs(abs, []byte(sc.Files[rel]), now, err == nil, rens, passes == 1)))
+		}
 	}
 	out.Lines = append(out.Lines, marshal(map[string]interface{}{
 		"ev": "RunEnd", "id": sc.ID, "exit": r.Exit, "timedout": r.TimedOut, "panicked": out.Panicked,
